@@ -175,11 +175,69 @@ def translate_variadic(tree):
     return code, bool(first), ""
 
 
+# ----------------------------------------------------------------------------- __instancecheck_str__
+
+
+def translate_stages(tree):
+    cls = next((n for n in tree.body if isinstance(n, ast.ClassDef) and n.name == "_MetaAbstractArray"), None)
+    fn = next((n for n in (cls.body if cls else []) if isinstance(n, ast.FunctionDef) and n.name == "__instancecheck_str__"), None)
+    if fn is None:
+        return ["unknown"]
+    out = []
+    body = _strip(fn.body)
+    i = 0
+    while i < len(body):
+        st = body[i]
+        src = _src(st)
+        if isinstance(st, ast.If) and _src(st.test) == "cls._skip_instancecheck" and len(st.body) == 1 and _is_accept_return(st.body[0]) and not st.orelse:
+            out.append("transparent")
+        elif isinstance(st, ast.If) and _src(st.test) == "cls.array_type is Any":
+            ok = (len(st.body) == 1 and isinstance(st.body[0], ast.If) and _src(st.body[0].test) in ("not (hasattr(obj, 'shape') and hasattr(obj, 'dtype'))",)
+                  and len(st.body[0].body) == 1 and _is_message_return(st.body[0].body[0]) and not st.body[0].orelse
+                  and len(st.orelse) == 1 and isinstance(st.orelse[0], ast.If) and _src(st.orelse[0].test) == "not isinstance(obj, cls.array_type)"
+                  and len(st.orelse[0].body) == 1 and _is_message_return(st.orelse[0].body[0]) and not st.orelse[0].orelse)
+            out.append("typeTest" if ok else "unknown")
+        elif isinstance(st, ast.If) and _src(st.test) == "get_treeflatten_memo()" and len(st.body) == 1 and _is_accept_return(st.body[0]) and not st.orelse:
+            out.append("flattenAccept")
+        elif isinstance(st, ast.If) and "obj.dtype" in _src(st.test) and all(
+                isinstance(n, (ast.Assign, ast.If, ast.Expr)) or True for n in st.body) and any(
+                isinstance(n, ast.Assign) and _src(n.targets[0]) in ("dtype", "(*_, dtype)") for n in ast.walk(st)) and not any(isinstance(n, ast.Return) for n in ast.walk(st)):
+            out.append("dtypeName")
+        elif isinstance(st, ast.If) and _src(st.test) == "cls.dtypes is not _any_dtype":
+            rets = [n for n in ast.walk(st) if isinstance(n, ast.Return)]
+            guarded = [n for n in ast.walk(st) if isinstance(n, ast.If) and _src(n.test) == "not in_dtypes"]
+            ok = bool(rets) and all(_is_message_return(r) for r in rets) and len(guarded) == 1 and not st.orelse
+            out.append("dtypeTest" if ok else "unknown")
+        elif isinstance(st, ast.Assign) and _src(st.value) == "get_shape_memo()":
+            # followed by the four .copy() backups
+            baks = body[i + 1:i + 5]
+            if len(baks) == 4 and all(isinstance(b, ast.Assign) and _src(b.value).endswith("_memo.copy()") for b in baks):
+                out.append("snapshot")
+                i += 4
+            else:
+                out.append("unknown")
+        elif isinstance(st, ast.Try):
+            ok = (len(st.body) == 1 and _src(st.body[0]) == "check = cls._check_shape(obj, single_memo, variadic_memo, arg_memo)"
+                  and len(st.handlers) == 1 and not st.orelse and not st.finalbody
+                  and any(isinstance(n, ast.Raise) and n.exc is None for n in st.handlers[0].body)
+                  and any(isinstance(n, ast.Expr) and _src(n.value).startswith("set_shape_memo(") for n in st.handlers[0].body))
+            out.append("walk" if ok else "unknown")
+        elif isinstance(st, ast.If) and _src(st.test) == "check == ''":
+            ok = (len(st.body) == 1 and _src(st.body[0]) == "return check" and len(st.orelse) == 2
+                  and _src(st.orelse[0]).startswith("set_shape_memo(") and _src(st.orelse[1]) == "return check")
+            out.append("finish" if ok else "unknown")
+        else:
+            out.append("unknown")
+        i += 1
+    return out
+
+
 def run():
     with open(os.path.join(REPO, "jaxtyping", "_array_types.py")) as fh:
         tree = ast.parse(fh.read())
     chain, note1 = translate_check_dims(tree)
     code, first, note2 = translate_variadic(tree)
+    stages = translate_stages(tree)
     txt = f"""/- GENERATED by harness/translate.py from {REPO}/jaxtyping/_array_types.py on every run. Do not edit. -/
 import JaxVerif.Model.SourceDsl
 
@@ -196,10 +254,14 @@ def variadicCode : List VStmt :=
 /-- `_check_shape`, name not bound yet: stores `(broadcastable, obj.shape[i:j])` and accepts -/
 def variadicFirstStoresCurNew : Bool := {'true' if first else 'false'}
 
+/-- the top-level statements of `__instancecheck_str__`, in source order -/
+def instancecheckStages : List IStage :=
+  [{', '.join('.' + x for x in stages)}]
+
 end JV.Generated
 """
     write_if_changed(os.path.join(GEN, "CheckCode.lean"), txt)
-    return {"check_dims_chain": chain, "variadic_code": code, "variadic_first": first, "notes": [n for n in (note1, note2) if n]}
+    return {"check_dims_chain": chain, "variadic_code": code, "variadic_first": first, "stages": stages, "notes": [n for n in (note1, note2) if n]}
 
 
 if __name__ == "__main__":
